@@ -109,7 +109,7 @@ var (
 	reTplTernary         = regexp.MustCompile(`^([jhqluacJfF.\d]*)=\s*(.*)(==|!=|>=|<=|>|<)(.*)\s*\?\s*([^:]+):(.*)`)
 	reTplTernaryHelper   = regexp.MustCompile(`^([jhqluacJfF.\d]*)=\s*([^(]+)\(*([^)]*)\)\s*\?\s*([^:]+):(.*)`)
 	reTplTernaryCondExpr = regexp.MustCompile(`[jhqluacJfF.\d]*=\s*(.*)(==|!=|>=|<=|>|<)([^?]+)`)
-	reModPfxF            = regexp.MustCompile(`([fF]+)\.*(\d*).*`)
+	reModPfxF            = regexp.MustCompile(`^([fF])(\.?)(\d*)`)
 	reModNoVar           = regexp.MustCompile(`([^(]+)\(([^)]*)\)`)
 	reMod                = regexp.MustCompile(`([^(]+)\(*([^)]*)\)*`)
 
@@ -1028,7 +1028,7 @@ func (p *parser) extractMods(t, outm []byte) ([]byte, []mod, bool) {
 						mods = append(mods, mod{
 							id:  idf,
 							fn:  fn,
-							arg: []*arg{{nil, m[2], true, false}},
+							arg: []*arg{{nil, m[3], true, false}},
 						})
 					case byte(outmF):
 						// - {%F.<prec>= ... %} - Ceil rounded to precision float.
@@ -1036,10 +1036,12 @@ func (p *parser) extractMods(t, outm []byte) ([]byte, []mod, bool) {
 						mods = append(mods, mod{
 							id:  idF,
 							fn:  fn,
-							arg: []*arg{{nil, m[2], true, false}},
+							arg: []*arg{{nil, m[3], true, false}},
 						})
 					}
-					off += len(m[2]) + 2
+					// Step over what was matched (the letter, the optional dot, the digits): the next letter is
+					// a directive of its own.
+					off += len(m[0])
 				} else {
 					// Unknown print modifier. Ignore it.
 					// Perhaps need report error here.
